@@ -239,7 +239,9 @@ func (w *lawWriter) valueLaws(s *Struct) {
 	conc := s.ConcArgs()
 	fl := "lwFields_" + s.Name
 	w.f("\nfunc lwLaws_%s(p *lwRep, seed uint64) {\n\tm := lwMeta_%s\n\tr := lwNewRand(seed, false)\n", s.Name, s.Name)
-	w.f("\tfor it := 0; it < %d; it++ {\n\t\tx, y := lwGen_%s(r, false), lwGen_%s(r, false)\n\t\tfx, fy := %s(x), %s(y)\n\t\t_, _ = fx, fy\n", w.n, s.Name, s.Name, fl, fl)
+	// w.n PRNG iterations followed by the forced pool (lwPair): nil / None, Some(typed nil), empty, empty with
+	// capacity, one nil element ... at every field at once, against a random partner and against another class
+	w.f("\tfor it := 0; it < %d+lwEdgeIters; it++ {\n\t\tx, y := lwPair(r, it-%d, lwGen_%s)\n\t\tfx, fy := %s(x), %s(y)\n\t\t_, _ = fx, fy\n\t\tp.pool(m, fx, it >= %d)\n", w.n, w.n, s.Name, fl, fl, w.n)
 
 	// getters / With
 	for _, f := range nf {
